@@ -57,7 +57,7 @@ from pathlib import Path
 
 from hypothesis import strategies as st
 
-from vf.core import CaseResult, Ctx, Violation, exc_sig, hyp_run, jhash
+from vf.core import CaseResult, Ctx, Violation, exc_sig, hyp_run
 from vf.gen.wfspec import render_flow, wfspecs
 from vf.sim.drive import Driver, outcome_maps, point_maps, run_async
 from vf.sim.engine import Job, Sim
@@ -90,8 +90,7 @@ MANIFEST = {
 }
 RULE = (
     'Scenario = generated workflow (<= 12 task instances; OR / offsets / '
-    'custom and optional outputs / absolute triggers; in half of the '
-    'scenarios execution retry delays PT0S) + job outcome exceptions + '
+    'custom and optional outputs / absolute triggers; no retries) + job outcome exceptions + '
     'command-return delays for the fair drain.  A reference child measures '
     'K = number of effect events of the uninterrupted run.  Quick: 12 kill '
     'points per scenario, one from each boundary class in turn (last '
@@ -148,6 +147,17 @@ ASSUMPTIONS = [
     'JobRunnerManager.jobs_poll: [TASK JOB MESSAGE] lines before the '
     '[TASK JOB SUMMARY] line of each job (the shared engine emits them the '
     'other way round; overridden here).',
+    'Retries are off in the generated workflows (clause 2 then reads: at '
+    'most one submit number per instance).  With execution retries the '
+    'check trips over a different restart defect that belongs to C02/C10/C19 '
+    'and was not triaged here: TaskProxy.run_mode is None for tasks loaded '
+    'from the DB, so the "retry lined up: ignore late poll result" guard of '
+    '_process_message_check (run_mode == LIVE) is skipped and a failure '
+    'reported both by message and by the restart poll consumes two tries.',
+    'Command-return delays apply to jobs-submit; a jobs-poll (the restart '
+    'poll) returns at the next process() call, so its result is never '
+    'processed after a newer message of the same job (late poll results: '
+    'recorded C09/C10 finding, excluded here).',
     'The virtual clock of incarnation n starts 100000 s after that of '
     'incarnation n-1 (it never runs backwards across a restart).',
     'Kill points start when the first incarnation has completed start-up '
@@ -387,6 +397,12 @@ def _instrument(drv: CDriver, eff: Effects, cf: ClusterFile):
                     sim.jobs[key] = Job(*key, script, ok)
         eff.hit({'jobs-submit': 'L', 'jobs-poll': 'P'}.get(kind, 'O')
                 + str(it['id']))
+        if kind == 'jobs-poll':
+            # a poll returns at the next process() call, i.e. before any
+            # message the jobs send after the poll looked at them is
+            # processed: late (stale) poll results are the subject of a
+            # recorded C09/C10 finding and are kept out of this domain
+            return True
         return r
 
     sim.on_launch = on_launch
@@ -1054,7 +1070,6 @@ def judge(spec, ref, records, chain, final, k=0, first_commit_k=0) -> list:
                 miss = set(missing)
                 dbs = [d for (_i, d, _n) in chain if d is not None]
                 active = ('preparing', 'submitted', 'running')
-                final_st = ('succeeded', 'failed', 'submit-failed', 'expired')
 
                 def atoms(m):
                     p = to_int.get(m[0])
@@ -1219,7 +1234,9 @@ def judge(spec, ref, records, chain, final, k=0, first_commit_k=0) -> list:
 @st.composite
 def cases(draw, tier='quick'):
     pf = {'max_tasks': 4, 'max_fcp': 3, 'min_tasks': 2}
-    with_retries = draw(st.integers(0, 1)) == 1
+    # retries are off in the generated domain (see ASSUMPTIONS); the switch
+    # and the oracle's retry allowance are kept for hand-written cases
+    with_retries = False
     spec = draw(wfspecs(pf))
     n_inst = len(Model(spec).instances())
     if n_inst > 12:
@@ -1259,7 +1276,6 @@ def cases(draw, tier='quick'):
 
 
 def check_case(case, ctx: Ctx) -> CaseResult:
-    spec = case['spec']
     try:
         return _check_case(case, ctx)
     finally:
